@@ -147,6 +147,32 @@ type node struct {
 	kids  []*node
 }
 
+// renderNames makes String write columns under other names (the request
+// renames them below the where/extend).
+var renderNames map[string]string
+
+func (n *node) renamedString(m map[string]string) string {
+	renderNames = m
+	defer func() { renderNames = nil }()
+	return n.String()
+}
+
+func (n *node) usedCols() []string {
+	seen := map[string]bool{}
+	n.walk(func(x *node) {
+		if x.op == "col" {
+			seen[x.col] = true
+		}
+	})
+	var r []string
+	for _, c := range cols {
+		if seen[c] {
+			r = append(r, c)
+		}
+	}
+	return r
+}
+
 // renderSubAsAddNeg makes String write every `x - y` as `x + (-y)`: what the
 // query evaluator computes (known finding subtraction-as-add-negation).
 var renderSubAsAddNeg = false
@@ -207,6 +233,9 @@ func (n *node) String() string {
 	case "const":
 		return n.c.lit
 	case "col":
+		if m, ok := renderNames[n.col]; ok {
+			return m
+		}
 		return n.col
 	case "and", "or":
 		parts := make([]string, len(n.kids))
